@@ -230,6 +230,14 @@ class Unit:
                 raise Untranslatable('free function arity')
             args = [self.expr(a, env, ty)[0] for a, ty in zip(e.args, argtys)]
             return self.coerce(f'({fn} {" ".join(args)})', resty, want)
+        if isinstance(e, ast.Call) and isinstance(e.func, ast.Name) and e.func.id == 'len' and len(e.args) == 1 \
+                and not e.keywords:
+            a, ta = self.expr(e.args[0], env)
+            if ta != 'dict' and not ta.startswith('list '):
+                raise Untranslatable(f'len of {ta}')
+            return self.coerce(f'(Z.of_nat (List.length {a}))', 'Z', want)
+        if isinstance(e, ast.Call) and ast.unparse(e.func) == 'copy.deepcopy' and len(e.args) == 1 and not e.keywords:
+            return self.expr(e.args[0], env, want)      # values of the model are immutable: a copy is the value
         if isinstance(e, ast.IfExp):
             c = self.truth(e.test, env)
             a, ta = self.expr(e.body, env, want)
@@ -300,10 +308,16 @@ class Unit:
         neg = False
         while isinstance(test, ast.UnaryOp) and isinstance(test.op, ast.Not):
             neg, test = not neg, test.operand
-        if isinstance(test, ast.Compare) and len(test.ops) == 1 and isinstance(test.left, ast.Name) \
+        if isinstance(test, ast.Compare) and len(test.ops) == 1 and isinstance(test.left, ast.Attribute) \
+                and isinstance(test.left.value, ast.Name) and test.left.value.id == 'self' \
+                and ast.unparse(test.left) not in env and test.left.attr in self.spec['attrs'] \
+                and self.spec['attrs'][test.left.attr] != 'STATE' \
+                and self.spec['attrs'][test.left.attr][1].startswith('option '):
+            env[ast.unparse(test.left)] = self.spec['attrs'][test.left.attr]
+        if isinstance(test, ast.Compare) and len(test.ops) == 1 and isinstance(test.left, (ast.Name, ast.Attribute)) \
                 and isinstance(test.comparators[0], ast.Constant) and test.comparators[0].value is None \
-                and isinstance(test.ops[0], (ast.Is, ast.IsNot)) and test.left.id in env:
-            x = test.left.id
+                and isinstance(test.ops[0], (ast.Is, ast.IsNot)) and ast.unparse(test.left) in env:
+            x = ast.unparse(test.left)
             ty = env[x][1]
             if ty.startswith('option '):
                 some_branch = isinstance(test.ops[0], ast.IsNot) != neg
@@ -400,6 +414,22 @@ class Unit:
             self.assign_log.append(x)
             return (f'(match ({prim} {" ".join(args)} {s}) with | (IDone {nx}, {s2}) => '
                     f'{cont(s2, {**env, x: (nx, resty)})} | (IRaise {o}, {s2}) => (IRaise {o}, {s2}) end)')
+        # context.update(d) / context.pop(k, None)
+        if isinstance(st, ast.Expr) and isinstance(st.value, ast.Call) and ast.unparse(st.value.func) == 'context.update' \
+                and len(st.value.args) == 1 and not st.value.keywords and mode[0] in ('eff', 'effv'):
+            d, ty = self.expr(st.value.args[0], env)
+            if ty != 'dict':
+                raise Untranslatable(f'context.update of {ty}')
+            s2 = self.new('s')
+            return f'(let {s2} := set_ctx {s} (dict_update (ctx {s}) {d}) in {cont(s2, env)})'
+        if isinstance(st, ast.Expr) and isinstance(st.value, ast.Call) and ast.unparse(st.value.func) == 'context.pop' \
+                and len(st.value.args) == 2 and isinstance(st.value.args[1], ast.Constant) \
+                and st.value.args[1].value is None and not st.value.keywords and mode[0] in ('eff', 'effv'):
+            kx, ty = self.expr(st.value.args[0], env)
+            if ty != 'val':
+                raise Untranslatable(f'context.pop of a {ty} key')
+            s2 = self.new('s')
+            return f'(let {s2} := set_ctx {s} (dict_pop {kx} (ctx {s})) in {cont(s2, env)})'
         # time.sleep(d)
         if isinstance(st, ast.Expr) and isinstance(st.value, ast.Call) and ast.unparse(st.value.func) == 'time.sleep' \
                 and len(st.value.args) == 1 and mode[0] in ('eff', 'effv'):
@@ -487,6 +517,8 @@ class Unit:
             return f'({m_andthen(mode)} {call} (fun {s2} => {cont(s2, {**env, "__eff__": ("", "flag")})}))'
         if isinstance(st, ast.For) and isinstance(st.target, ast.Name) and not st.orelse:
             xs, ty = self.expr(st.iter, env)
+            if ty == 'dict':
+                xs, ty = f'(map fst {xs})', 'list val'       # iterating a mapping = its keys, in order
             if ty == 'val':
                 items = self.new('items')
                 x = self.new(st.target.id + '_')
@@ -1014,7 +1046,18 @@ POLL = {
                                  'fuel': True}},
     'order': ['sleep_looper'],
 }
-UNITS = [STEPSRUNNER, STEP, RETRY, WHILE, PIPELINE, PYPE, STEP_FOREACH, STEP_RUN, POLL]
+STEP_IN = {
+    'file': 'pypyr/dsl.py', 'cls': 'Step', 'section': 'GenStepIn',
+    'variables': [('sp', 'step', 'self')],
+    'attrs': {'in_parameters': ('(s_in sp)', 'option dict')},
+    'fields': {}, 'ctors': {}, 'obj_methods': {},
+    'methods': {
+        'set_step_input_context': {'kind': 'eff', 'coq': 'gen_set_step_input_context', 'params': []},
+        'unset_step_input_context': {'kind': 'eff', 'coq': 'gen_unset_step_input_context', 'params': []},
+    },
+    'order': ['set_step_input_context', 'unset_step_input_context'],
+}
+UNITS = [STEPSRUNNER, STEP, RETRY, WHILE, PIPELINE, PYPE, STEP_FOREACH, STEP_RUN, POLL, STEP_IN]
 
 
 def pure_call_hook(unit):
